@@ -7,7 +7,7 @@ from vf import tlc
 from vf.tlc import MachineryError
 
 SCOPE = {'none': '', 'empty': '%', '1': '%e', '15': '%' + 'abcdefghij12345', '16': '%' + 'abcdefghij123456',
-         '17': '%' + 'abcdefghij1234567'}
+         '17': '%' + 'abcdefghij1234567', 'two_percent': '%a%b', 'double_percent': '%%'}
 
 
 def render(c):
@@ -23,9 +23,10 @@ def render(c):
         return text + SCOPE[c['scope']]
     if k == 'cidr':
         if c['fam'] == 4:
-            a = {'ok': '10.0.0.0', 'ok_hostbits': '10.1.2.3', 'bad': '10.0.0.256'}[c['addr']]
+            a = {'ok': '10.0.0.0', 'ok_hostbits': '10.1.2.3', 'bad': '10.0.0.256', 'ok_longest': '255.255.255.255'}[c['addr']]
         else:
-            a = {'ok': '2001:db8::', 'ok_hostbits': '2001:db8::1', 'bad': '2001:db8::g'}[c['addr']]
+            a = {'ok': '2001:db8::', 'ok_hostbits': '2001:db8::1', 'bad': '2001:db8::g',
+                 'ok_longest': '1111:2222:3333:4444:5555:6666:123.123.123.123'}[c['addr']]
         if c['slashes'] == 0:
             return a
         if c['slashes'] == 1:
